@@ -53,7 +53,10 @@ def main():
     meta["alarms"] = sorted(p for p, r in meta["checks"].items() if r["rc"] != 0)
     d = os.path.join(VERIF, "seeded", "preserving", sid)
     os.makedirs(d, exist_ok=True)
-    sh(f"git diff -- mosaik > {os.path.join(d, 'patch.diff')}", cwd=wt)
+    if os.path.exists(os.path.join(wt, "SEED", "patch.diff")):
+        shutil.copy(os.path.join(wt, "SEED", "patch.diff"), os.path.join(d, "patch.diff"))
+    else:
+        sh(f"git diff -- mosaik > {os.path.join(d, 'patch.diff')}", cwd=wt)
     for name in ("demo.py", "notes.md"):
         src = os.path.join(wt, "SEED", name)
         if os.path.exists(src):
